@@ -168,7 +168,7 @@ def run_case(ch: Choices, params: dict) -> dict:
     n_ops = ch.rng_int(params.get("min_ops", 6), params.get("max_ops", 24), "n_ops")
     raw_hot = [ch.draw(64, "hot") for _ in range(3)]
     raw_history = [(ch.draw(64, "def"), ch.draw(3, "hot_i"), ch.draw(3, "use_hot") > 0,
-                    ch.draw(6, "op")) for _ in range(n_ops)]
+                    ch.draw(6, "op"), ch.draw(4, "again")) for _ in range(n_ops)]
     # ---- pool
     n_mod = ch.rng_int(1, 3, "n_modules")
     mods, progs = [], []
@@ -204,8 +204,10 @@ def run_case(ch: Choices, params: dict) -> dict:
     # that the minimiser can shorten the program part of the choice list without
     # disturbing the ops and vice versa
     history = []
-    for (pi_raw, hot_i, use_hot, op_raw) in raw_history:
+    for (pi_raw, hot_i, use_hot, op_raw, again) in raw_history:
         pi = hot[hot_i] if use_hot else pi_raw % len(pool)
+        if again == 3 and history:
+            pi = history[-1][0]      # the same definition once more, right away
         if pool[pi][1] == "main" or pi == hot[0]:
             op = OPS[op_raw % 3]
         else:
